@@ -55,14 +55,14 @@ void ControlFlowExecutor::execute_while_statement(const ASTNode *node) {
 
                 // v0.12.0: auto_yieldモードの場合、各イテレーション後にyield
                 // これにより、whileループが他のタスクを独占しない
-                if (interpreter_->is_in_auto_yield_mode()) {
+                if (interpreter_->loop_auto_yields()) {
                     throw YieldException(true); // ループ内の自動yield
                 }
 
                 // v0.13.0 Phase 2.0:
                 // 非auto_yieldモードでも、バックグラウンドタスクがあれば
                 // 各イテレーション後に1サイクル実行して協調的マルチタスクを実現
-                if (!interpreter_->is_in_auto_yield_mode()) {
+                if (!interpreter_->loop_auto_yields()) {
                     interpreter_->run_background_tasks_one_cycle();
                 }
 
@@ -184,14 +184,14 @@ void ControlFlowExecutor::execute_for_statement(const ASTNode *node) {
 
             // v0.12.0: auto_yieldモードの場合、各イテレーション後にyield
             // これにより、forループが他のタスクを独占しない
-            if (interpreter_->is_in_auto_yield_mode()) {
+            if (interpreter_->loop_auto_yields()) {
                 throw YieldException(true); // ループ内の自動yield
             }
 
             // v0.13.0 Phase 2.0:
             // 非auto_yieldモードでも、バックグラウンドタスクがあれば
             // 各イテレーション後に1サイクル実行して協調的マルチタスクを実現
-            if (!interpreter_->is_in_auto_yield_mode()) {
+            if (!interpreter_->loop_auto_yields()) {
                 interpreter_->run_background_tasks_one_cycle();
             }
 
